@@ -1082,3 +1082,72 @@ func ruleSortedLookupConsistent(c *Ctx) {
 	}
 	c.stat("lookup_exit_match_pairs", n)
 }
+
+func init() {
+	register(&Rule{ID: "R12.equals-from-order", Props: []string{"C12"}, Floor: 1,
+		Text: "WHERE f == v, WHERE f != v and every WHEREIN test use field.Value.Equals; the range and ordering filters use Less. The two agree for every kind of value only if equality is the equality of the order: Equals is defined through the order's one definition — both Less(a, b) and Less(b, a) are false — and not by a comparison of its own (a direct comparison that folds case for every kind makes {\"tag\":\"AB\"} == {\"tag\":\"ab\"} while the order, which folds case for strings only, still separates them)",
+		Run:  ruleEqualsFromOrder})
+}
+
+func ruleEqualsFromOrder(c *Ctx) {
+	eq := c.Func("internal/field", "Value", "Equals")
+	if eq == nil || eq.Decl.Body == nil {
+		c.und("anchors", 0, "field.Value.Equals not found")
+		return
+	}
+	info := eq.Info()
+	recv := info.ObjectOf(eq.Decl.Recv.List[0].Names[0])
+	var param types.Object
+	if ps := eq.Decl.Type.Params.List; len(ps) == 1 && len(ps[0].Names) == 1 {
+		param = info.ObjectOf(ps[0].Names[0])
+	}
+	// every return is  !a.Less(b) && !b.Less(a)  (in either order), Less being a method of Value that orders
+	nret, good := 0, true
+	var at ast.Node = eq.Decl
+	inspectNoLit(eq.Decl.Body, func(n ast.Node) bool {
+		r, ok := n.(*ast.ReturnStmt)
+		if !ok {
+			return true
+		}
+		nret++
+		okr := false
+		if len(r.Results) == 1 {
+			var cs []ast.Expr
+			flattenAnd(r.Results[0], &cs)
+			dirs := map[string]bool{}
+			for _, cj := range cs {
+				u, ok := ast.Unparen(cj).(*ast.UnaryExpr)
+				if !ok || u.Op != token.NOT {
+					continue
+				}
+				call, ok := ast.Unparen(u.X).(*ast.CallExpr)
+				if !ok || len(call.Args) != 1 {
+					continue
+				}
+				f := callee(info, call)
+				if f == nil || !strings.HasPrefix(f.Name(), "Less") || !isMethod(f, modPath+"/internal/field", "Value", f.Name()) {
+					continue
+				}
+				se := ast.Unparen(call.Fun).(*ast.SelectorExpr)
+				rid, ok1 := ast.Unparen(se.X).(*ast.Ident)
+				aid, ok2 := ast.Unparen(call.Args[0]).(*ast.Ident)
+				if !ok1 || !ok2 {
+					continue
+				}
+				switch {
+				case info.ObjectOf(rid) == recv && info.ObjectOf(aid) == param:
+					dirs["ab"] = true
+				case info.ObjectOf(rid) == param && info.ObjectOf(aid) == recv:
+					dirs["ba"] = true
+				}
+			}
+			okr = len(cs) == 2 && dirs["ab"] && dirs["ba"]
+		}
+		if !okr {
+			good = false
+			at = r
+		}
+		return true
+	})
+	c.check(good && nret > 0, "Value.Equals", at.Pos(), "Equals is !a.Less(b) && !b.Less(a): the equality of the order", "Value.Equals compares the values itself instead of deriving equality from Less: equality filters (==, !=, WHEREIN) and order filters (<, <=, ranges) can now disagree on whether two values are the same — the documented value order is defined in one place, Less")
+}
